@@ -684,7 +684,10 @@ fn run_case(l: &mut Local, case: &Case, ctx: &mut Ctx) {
             }
             None => {
                 if stored {
-                    l.outcome_with("stored-and-verified", || json!({ "case": case.id, "file": direct[0] }));
+                    // observed, not asserted: is the file named literally after the UID, or under another (sanitised) name?
+                    let literal = format!("{out_rel}/{}.dcm", real_uid(&st.cmd_uid).trim_end_matches('\0'));
+                    let name = if *direct[0] == literal { "stored-and-verified-under-uid-name" } else { "stored-and-verified-under-other-name" };
+                    l.outcome_with(name, || json!({ "case": case.id, "file": direct[0] }));
                 } else {
                     let how = match &answer {
                         Answer::Response { cmd, .. } => format!("refused-status-{:04X}", cmd.status.unwrap_or(0xFFFF)),
